@@ -378,6 +378,93 @@ fn main() {
         }
     }
 
+    // ---------------------------------------------------------------- first durable writes of NEW embedding keys from many threads at once
+    // (every such write allocates an entity id and logs it): after quiescence recovery must return every key's own value
+    {
+        let wal3 = dir.join("newkeys.wal");
+        let _ = std::fs::remove_file(&wal3);
+        let cfg3 = WalConfig { sync_mode: SyncMode::Manual, ..WalConfig::default() };
+        let st = TensorStore::open_durable(&wal3, cfg3.clone()).unwrap();
+        let rounds = args.budget(120, 2000);
+        let threads = 8usize;
+        for round in 0..rounds {
+            let bar = Arc::new(Barrier::new(threads));
+            let hs: Vec<_> = (0..threads).map(|t| {
+                let (s, bar) = (st.clone(), bar.clone());
+                std::thread::spawn(move || {
+                    let k = Key { cls: 0, idx: t as u8 };
+                    bar.wait();
+                    s.put_durable(kname(100_000 + round, k), value(k, (round * 10 + t + 1) as u64)).unwrap();
+                    if round % 3 == 0 { let _ = s.delete_durable(&kname(100_000 + round, k)); s.put_durable(kname(100_000 + round, k), value(k, (round * 10 + t + 1) as u64)).unwrap(); }
+                })
+            }).collect();
+            for h in hs { h.join().unwrap(); }
+        }
+        st.wal_sync().unwrap();
+        let all: Vec<(usize, Key)> = (0..rounds).flat_map(|r| (0..threads).map(move |t| (100_000 + r, Key { cls: 0, idx: t as u8 }))).collect();
+        let mem: Vec<Option<u64>> = all.iter().map(|(h, k)| st.get(&kname(*h, *k)).ok().map(|t| decode(*k, &t))).collect();
+        drop(st);
+        match TensorStore::recover(&wal3, &cfg3, None) {
+            Ok(rec) => {
+                let mut bad = 0;
+                for ((h, k), m) in all.iter().zip(&mem) {
+                    let r = rec.get(&kname(*h, *k)).ok().map(|t| decode(*k, &t));
+                    if r != *m {
+                        bad += 1;
+                        if bad <= 2 { hits.push("durable-order", &format!("{threads} threads each durably wrote a NEW embedding key at once; after quiescence {} reads {m:?} in memory but {r:?} after recovery (values >= 1000000 encode tag*1000+vector: the fields of one write with the vector of another)", kname(*h, *k)), json!({"kind": "newkeys", "seed": args.seed, "key": kname(*h, *k)})); }
+                    }
+                }
+                durable.push("n", &format!("new-key race: {} embedding keys first written by {threads} threads at once, compared after recovery, {bad} differ", all.len()), true);
+                dist.add("durable.new_emb_keys", all.len() as u64);
+            }
+            Err(e) => hits.push("recover-error", &format!("recover failed: {e}"), json!({"kind": "newkeys"})),
+        }
+    }
+
+    // ---------------------------------------------------------------- bloom hammer: stores built with a Bloom filter; many threads put
+    // DISTINCT keys at once; a put that has returned must be visible to get and exists, then and for ever after
+    for (label, small) in [("default filter", false), ("small filter (64 items, 1%)", true)] {
+        let rounds = args.budget(70, 1500);
+        let threads = 8usize;
+        let per = 24usize;
+        let mut bad: Option<String> = None;
+        let mut puts = 0u64;
+        for round in 0..rounds {
+            let store = if small { TensorStore::with_bloom_filter(64, 0.01) } else { TensorStore::with_default_bloom_filter() };
+            let bar = Arc::new(Barrier::new(threads));
+            let mut hs = vec![];
+            for t in 0..threads {
+                let (s, bar) = (store.clone(), bar.clone());
+                hs.push(std::thread::spawn(move || {
+                    bar.wait();
+                    let mut early: Option<String> = None;
+                    for j in 0..per {
+                        let k = format!("bk{round}:{t}:{j}");
+                        let mut v = TensorData::new();
+                        v.set("v", TensorValue::Scalar(ScalarValue::Int((t * 1000 + j) as i64)));
+                        s.put(k.clone(), v).unwrap();
+                        if early.is_none() && !(s.exists(&k) && s.get(&k).is_ok()) { early = Some(k); }
+                    }
+                    early
+                }));
+            }
+            let early: Vec<String> = hs.into_iter().filter_map(|h| h.join().unwrap()).collect();
+            puts += (threads * per) as u64;
+            let mut lost = vec![];
+            for t in 0..threads { for j in 0..per { let k = format!("bk{round}:{t}:{j}"); if !(store.exists(&k) && store.get(&k).is_ok()) { lost.push(k); } } }
+            if !lost.is_empty() || !early.is_empty() {
+                let listed = store.scan(&format!("bk{round}:")).len();
+                bad = Some(format!("round {round}: {threads} threads put {per} distinct keys each; after all puts returned get/exists do not find {:?} (scan lists {listed} of {} keys); not visible right after their own put: {:?}", &lost[..lost.len().min(4)], threads * per, &early[..early.len().min(4)]));
+                break;
+            }
+        }
+        dist.add(&format!("bloomhammer.{}.puts", if small { "small" } else { "default" }), puts);
+        hammer.push(&format!("b{}", small as u8), &format!("bloom-hammer {label}: puts={puts} bad={bad:?}"), true);
+        if let Some(bq) = bad {
+            hits.push("put-lost-to-bloom-filter", &format!("store with a Bloom filter ({label}), {bq}"), json!({"kind": "bloom-hammer", "filter": label, "seed": args.seed}));
+        }
+    }
+
     // ---------------------------------------------------------------- scan hammer: a prefix scan is one of the states it overlapped
     // keys a, b present; one writer cycles put(c); delete(a); put(a); delete(c): the key set is always {a,b}, {a,b,c} or {b,c},
     // so every scan must list b, and a or c, and nothing else
